@@ -4,8 +4,9 @@ import CelModel.StrOps
 # Literal decoding (`antlr/src/parse.rs`, `visit_String` / `visit_Bytes` in `parser.rs`)
 
 A character-for-character port of `parse_string` (quote-toggling state machine included — see
-DESIGN.md D5 for the behaviour it causes on triple-quoted literals and on `\'` inside a
-double-quoted literal) and of `parse_bytes`.
+DESIGN.md D5 for the behaviour it causes on `\'` inside a double-quoted literal and on raw
+literals; triple-quoted literals are delimited once, as repaired by the D5c fix) and of
+`parse_bytes`.
 -/
 namespace Cel
 namespace StrLit
@@ -47,10 +48,12 @@ def unicodeOct (first : Char) (s : Str) : Option (Char × Str) :=
   | none => none
   | some n => if n ≤ 255 then (charOfNat? n).map (fun c => (c, s.drop 2)) else none
 
-/-- `parse_quoted_string` after the first (opening) quote has been consumed -/
-def quoted : (fuel : Nat) → Str → (inSingle inDouble : Bool) → Str → Option Str
+/-- `parse_quoted_string` after the first (opening) quote has been consumed; with `lit`
+(`literal_quotes`, the body of a triple-quoted literal) quote characters never toggle the state
+and no closing quote is expected -/
+def quoted (lit : Bool) : (fuel : Nat) → Str → (inSingle inDouble : Bool) → Str → Option Str
   | 0, _, _, _, _ => none
-  | _, [], inS, inD, acc => if inS || inD then none else some acc.reverse
+  | _, [], inS, inD, acc => if !lit && (inS || inD) then none else some acc.reverse
   | fuel + 1, c :: rest, inS, inD, acc =>
     let inQ := inS || inD
     if c == '\\' && inQ then
@@ -58,7 +61,7 @@ def quoted : (fuel : Nat) → Str → (inSingle inDouble : Bool) → Str → Opt
       | [] => none
       | c2 :: r2 =>
         let simple (v : Char) (pushEsc : Bool) : Option Str :=
-          quoted fuel r2 inS inD (v :: (if pushEsc then '\\' :: acc else acc))
+          quoted lit fuel r2 inS inD (v :: (if pushEsc then '\\' :: acc else acc))
         if c2 == 'a' then simple (Char.ofNat 7) false
         else if c2 == 'b' then simple (Char.ofNat 8) false
         else if c2 == 'v' then simple (Char.ofNat 11) false
@@ -73,18 +76,18 @@ def quoted : (fuel : Nat) → Str → (inSingle inDouble : Bool) → Str → Opt
           let len := if c2 == 'u' then 4 else if c2 == 'U' then 8 else 2
           match unicodeHex len r2 with
           | none => none
-          | some (v, r3) => quoted fuel r3 inS inD (v :: acc)
+          | some (v, r3) => quoted lit fuel r3 inS inD (v :: acc)
         else if '0' ≤ c2 && c2 ≤ '3' then
           match unicodeOct c2 r2 with
           | none => none
-          | some (v, r3) => quoted fuel r3 inS inD (v :: acc)
+          | some (v, r3) => quoted lit fuel r3 inS inD (v :: acc)
         else none
     else if c == '\'' then
-      if inD then quoted fuel rest inS inD (c :: acc) else quoted fuel rest (!inS) inD acc
+      if inD || lit then quoted lit fuel rest inS inD (c :: acc) else quoted lit fuel rest (!inS) inD acc
     else if c == '"' then
-      if inS then quoted fuel rest inS inD (c :: acc) else quoted fuel rest inS (!inD) acc
+      if inS || lit then quoted lit fuel rest inS inD (c :: acc) else quoted lit fuel rest inS (!inD) acc
     else if !inQ then none
-    else quoted fuel rest inS inD (c :: acc)
+    else quoted lit fuel rest inS inD (c :: acc)
 
 /-- `parse_raw_string` after the `r`/`R` has been consumed -/
 def raw : (fuel : Nat) → Str → (inSingle inDouble : Bool) → Str → Option Str
@@ -105,15 +108,30 @@ def raw : (fuel : Nat) → Str → (inSingle inDouble : Bool) → Str → Option
     else if !inQ then none
     else raw fuel rest inS inD (c :: acc)
 
-/-- `parse_string` on the text of a STRING token -/
+/-- the text is delimited by three `q` on either side (`len >= 6 && starts_with && ends_with`) -/
+def isTriple (q : Char) (t : Str) : Bool :=
+  t.length ≥ 6 && t.take 3 == [q, q, q] && t.drop (t.length - 3) == [q, q, q]
+
+/-- `parse_string` on the text of a STRING token: a triple-quoted literal has its delimiters
+stripped once and its body decoded with quotes taken literally (verbatim when raw); anything
+else goes through the quote-toggling state machines -/
 def parseString (s : Str) : Option Str :=
-  match s with
-  | c :: rest =>
-    if c == 'r' || c == 'R' then raw (rest.length + 1) rest false false []
-    else if c == '\'' then quoted (rest.length + 1) rest true false []
-    else if c == '"' then quoted (rest.length + 1) rest false true []
-    else none
-  | [] => none
+  let (isRaw, t) : Bool × Str := match s with
+    | c :: r => if c == 'r' || c == 'R' then (true, r) else (false, s)
+    | [] => (false, s)
+  let body := (t.drop 3).take (t.length - 6)
+  if isTriple '\'' t then
+    (if isRaw then some body else quoted true (body.length + 1) body true false [])
+  else if isTriple '"' t then
+    (if isRaw then some body else quoted true (body.length + 1) body false true [])
+  else
+    match s with
+    | c :: rest =>
+      if c == 'r' || c == 'R' then raw (rest.length + 1) rest false false []
+      else if c == '\'' then quoted false (rest.length + 1) rest true false []
+      else if c == '"' then quoted false (rest.length + 1) rest false true []
+      else none
+    | [] => none
 
 /-- `parse_bytes` on the body of a bytes literal -/
 def bytesBody : (fuel : Nat) → Str → List UInt8 → Option (List UInt8)
